@@ -652,7 +652,15 @@ pub fn sync_source(label: &'static str, script: Vec<Emit<i64>>, causes: Causes) 
 }
 
 pub fn script_label(s: &[Emit<i64>]) -> String {
-  s.iter().map(emit_label).collect::<Vec<_>>().join(",")
+  let l: Vec<String> = s.iter().map(emit_label).collect();
+  if l.len() > 8 {
+    // a burst: first, last item and the tail
+    let items = s.iter().filter(|x| matches!(x, Emit::N(_))).count();
+    let mut out = vec![l[0].clone(), "..".to_string(), l[items - 1].clone()];
+    out.extend(l[items..].iter().cloned());
+    return out.join(",");
+  }
+  l.join(",")
 }
 
 /// live controlled threads at the end (anything not finished)
